@@ -585,6 +585,18 @@ bool Importer::ImporterImpl::fetchComponent(const ComponentPtr &importComponent,
     }
 
     history.pop_back();
+
+    // Fetch the components that the importing model encapsulates in this
+    // import.  Those of the model being resolved are fetched in their own
+    // right (see getImportedComponents()), those of a library model are not.
+    if (modelUrl(importComponentModel) != ORIGIN_MODEL_REF) {
+        for (size_t c = 0; c < importComponent->componentCount(); ++c) {
+            if (!fetchComponent(importComponent->component(c), baseFile, history)) {
+                return false;
+            }
+        }
+    }
+
     return true;
 }
 
